@@ -215,6 +215,14 @@ Definition int_enum_codes (name : string) : list Z :=
   match find (fun t => String.eqb (fst t) name) int_enum_members with Some (_, ms) => map snd ms | None => [] end.
 Definition ssl2_msg_runner (t : Z) (m : bytes) : result Z :=
   if (t =? 1) || (t =? 4) then Err OutOfFuel else ssl2_msg (int_enum_codes "SslErrorType") t m.
+(* the two record layers as units of the reader loop (message type / nothing as the header description, the message bytes) *)
+Definition record_parser (u : string) : option (bytes -> result (frame * Z)) :=
+  if String.eqb u "ssl2" then
+    Some (fun buf => let* (x, n) := ssl2_parse ssl2_msg_runner (int_enum_codes "SslMessageType") buf in
+                     Ok ((string_of_Z (fst (fst x)), snd (fst x)), n))
+  else if String.eqb u "sshpkt" then
+    Some (fun buf => let* (x, n) := ssh_parse (ssh_msg_init (int_enum_codes "SshMessageCode")) buf in Ok (("", fst x), n))
+  else unit_parser u.
 Definition show_ssl2 (r : (Z * bytes * bytes) * Z) : string :=
   string_of_Z (fst (fst (fst r))) ++ " " ++ hex_of_bytes (snd (fst (fst r))) ++ " n=" ++ string_of_Z (snd r).
 
@@ -425,7 +433,7 @@ Definition run_words (ws : list string) : string :=
                         | Some p => show_result show_frame_rest (parse_mutable frame p (bytes_of_hex h)) | None => "BADCMD" end
   | ["cframe"; u; hd; h] => match unit_composer u hd (bytes_of_hex h) with
                             | Some r => show_result hex_of_bytes r | None => "BADCMD" end
-  | ["reader"; u; chunks] => match unit_parser u with
+  | ["reader"; u; chunks] => match record_parser u with
                              | Some p => reader_trace p (rinit frame) (map bytes_of_hex (if String.eqb chunks "-" then [] else split_on "," chunks "")) []
                              | None => "BADCMD" end
   | ["vec"; cls; init; ops] =>
